@@ -174,7 +174,7 @@ def mono(f, u, tparam, bound_rx, concrete):
     replace the parameter type.  (Verus loses the spec of iterator `map` closures inside generic
     functions; the body is unchanged.)"""
     n = f.rewrite(r'<%s: %s>\(' % (tparam, bound_rx), '(', expect=1)
-    n += f.rewrite(r'\b%s\b(?=[>,)])' % tparam, concrete)
+    n += f.rewrite(r'\b%s\b(?=[>,)\]])' % tparam, concrete)
     u.count('R-mono', 1)
     return n
 
